@@ -247,9 +247,7 @@ def t7_raw_key_normal_form(ctx) -> None:
     ctx.analysed(cl)
     rets = [r for r in C.returns_of(f) if r.value is not None]
     for r in rets:
-        v = r.value
-        if isinstance(v, ast.Call) and norm(v.func) == "tuple" and len(v.args) == 1 and isinstance(v.args[0], ast.Call) \
-                and norm(v.args[0].func) == "sorted":
+        if D.sorted_tuple_of(f, r) is not None:
             ctx.ok("T7", "_clean_labels returns tuple(sorted(...))")
         else:
             ctx.violation("T7", r, "_clean_labels must return the kept child labels as tuple(sorted(...)): stored keys are compared up to order")
@@ -302,8 +300,17 @@ def t7_raw_key_normal_form(ctx) -> None:
     # membership before recomputation
     first = g.body[0]
     raises = [r for r in C.raises_of(g) if r.exc is not None and norm(r.exc).startswith("KeyError")]
-    if raises and any(("self._flatten(key) not in self.rules", True) in C.guard_texts(g, r) or
-                      ("self._flatten(key) in self.rules", False) in C.guard_texts(g, r) for r in raises):
+    kp = gi.params()[1]
+
+    def _not_stored(r) -> bool:
+        for t, pol in C.flatten_guards(C.guards(g, r)):
+            if isinstance(t, ast.Compare) and len(t.ops) == 1 and isinstance(t.ops[0], (ast.In, ast.NotIn)) and norm(t.comparators[0]) == "self.rules":
+                absent = (isinstance(t.ops[0], ast.NotIn) and pol) or (isinstance(t.ops[0], ast.In) and not pol)
+                if absent and norm(D.expanded(g, t.left)) == f"self._flatten({kp})":
+                    return True
+        return False
+
+    if raises and any(_not_stored(r) for r in raises):
         ctx.ok("T7", "__getitem__ raises KeyError for a key that was never stored (as a dict would)")
     else:
         ctx.violation("T7", g, "RecomputingDict.__getitem__ must raise KeyError for keys that are not stored (the extractor relies on it, as with a dict)",
